@@ -280,6 +280,10 @@ class NPProxy(types.ModuleType):
         return getattr(real_np, k)
 
     def _filled(self, shape, v, dtype):
+        if dtype is not None and real_np.dtype(dtype) == real_np.dtype(bool):
+            # Boolean masks handed to third-party code (qiskit's Pauli) stay native; the library never stores
+            # symbolic integers in a bool array
+            return real_np.full(shape, bool(v), dtype=bool)
         a = real_np.empty(shape, dtype=object)
         a.fill(v)
         return _wrap(a, dtype if dtype is not None else real_np.float64)
